@@ -72,6 +72,24 @@ def run(tier, seed, replay=None):
             if len(samples) < 3:
                 samples.append({"case": nm, "options": opts, "c03": o["c03"]})
             shutil.rmtree(r["dir"], ignore_errors=True)
+    # corpus: recorded witnesses of known findings (must keep reproducing to stay listed; a fixed tree simply passes)
+    for wname, rule, sig in [
+        ("kf_precontext_only", "_ > c4:1 / c1 _;", "C03:engine-rejects-rule-whose-input-items-all-precede-the-first-modified-item"),
+        ("kf_64_items", " ".join(["c1"] * 64) + " > " + " ".join(["c1"] * 63) + " c4;", "C03:engine-rejects-rule-with-64-items"),
+    ]:
+        prog = gen.Prog()
+        prog.nglyphs = 20
+        prog.font, _g, prog.cmap = __import__("ttf").simple_font(20)
+        prog.raw_gdl = ('#include "stddef.gdh"\ntable(glyph) c1 = glyphid(3..6); c4 = glyphid(7); endtable;\n'
+                        'table(sub) pass(1) %s endpass; endtable;\n' % rule)
+        res = harness.compile_cases(build, work, [(wname, prog)])[0]
+        if res["rc"] == 0 and os.path.exists(os.path.join(res["dir"], "out.ttf")):
+            f = gr2.Face(os.path.join(res["dir"], "out.ttf"))
+            okf = f.ok()
+            f.close()
+            stats["corpus_cases"] += 1
+            if not okf:
+                rep.violation(wname, {"gdl": prog.raw_gdl, "meaning": "compiler exits 0 but libgraphite2 rejects the font"}, signature=sig)
     rep.coverage.update({
         "programs": len(cases), "fonts_checked": stats["fonts_checked"], "compilations": total, "rejected": rejected,
         "options_distribution": dict(optstats),
